@@ -13,7 +13,7 @@ from fractions import Fraction
 import numpy as np
 from common import *
 
-IMPORTS = ("From CV Require Import Base.Cmp Model.C04_Dens. From Coq Require Import QArith Reals List. "
+IMPORTS = ("From CV Require Import Base.Cmp Model.C04_Dens Model.C04_Cdf. From Coq Require Import QArith Reals List. "
            "Import ListNotations. From Interval Require Import Tactic.")
 RULE = ("every family x parameter form (scalar broadcast / vector per parameter) x dim in {1,2,3,5} x way of passing "
         "(float, list, ndarray, conditioned keyword, callable) x method (logpdf, pdf, logd, cdf where closed form); Gaussian: one "
@@ -135,12 +135,20 @@ def doc_logpdf(fam, P, x):
 
 
 def doc_cdf1(fam, P1, xi):
-    """documented 1-d cdf where a closed form exists; otherwise None (quadrature of the documented pdf is used)."""
+    """documented 1-d cdf: closed form for Normal / Cauchy, otherwise numerical quadrature of the DOCUMENTED 1-d density
+    (plain Python density; not scipy.stats, which is what the code calls)."""
     if fam == "Normal":
         return 0.5 * (1 + math.erf((xi - P1["mean"]) / (P1["std"] * math.sqrt(2))))
     if fam == "Cauchy":
         return math.atan((xi - P1["location"]) / P1["scale"]) / math.pi + 0.5
-    return None
+    from scipy.integrate import quad
+    lower = {"Gamma": 0.0, "Beta": 0.0, "InverseGamma": P1.get("location", 0.0)}[fam]
+    if xi <= lower:
+        return 0.0
+    Pl = {k: [v] for k, v in P1.items()}
+    f = lambda t: math.exp(doc_logpdf(fam, Pl, [t])) if t > lower else 0.0
+    val, err = quad(f, lower, xi, epsabs=1e-13, epsrel=1e-12, limit=200)
+    return val
 
 
 def close(a, b, rel=1e-9):
@@ -301,6 +309,40 @@ def lng_expr(a):
     return cr(g), g
 
 
+def cdf_goal(fam, P, x, n, obs):
+    """proposition tying a product-form cdf to the model: every 1-d factor (an integral of the documented density, one
+    `integral` proof each) lies within 1e-10 of a rational q_i, and prod q_i is within tolerance of the observed value
+    (the factors are probabilities, so |prod f_i - prod q_i| <= sum |f_i - q_i|)"""
+    fs, qs, pre = [], [], []
+    for i in range(n):
+        g = lambda k: bc(P[k], n)[i]
+        if fam == "Normal":
+            z = (frac(x[i]) - frac(g("mean"))) / frac(g("std"))
+            fs.append("(normal_cdf_z [%s]%%list)" % cr(z))
+            q = 0.5 * (1 + math.erf(float(z) / math.sqrt(2)))
+        elif fam == "Gamma":
+            fs.append("(gamma_int_cdf1 %s %s %s)" % (cnat(int(g("shape")) - 1), cr(g("rate")), cr(x[i])))
+            q = doc_cdf1(fam, {k: bc(v, n)[i] for k, v in P.items()}, x[i])
+        elif fam == "InverseGamma":     # X - loc ~ InvGamma(a, scale)  <=>  1/(X - loc) ~ Gamma(a, rate = scale)
+            fs.append("(1 - gamma_int_cdf1 %s %s %s)" % (cnat(int(g("shape")) - 1), cr(g("scale")), cr(1 / (frac(x[i]) - frac(g("location"))))))
+            q = doc_cdf1(fam, {k: bc(v, n)[i] for k, v in P.items()}, x[i])
+        else:
+            fs.append("(beta_int_cdf1 %s %s %s)" % (cnat(int(g("alpha")) - 1), cnat(int(g("beta")) - 1), cr(x[i])))
+            q = doc_cdf1(fam, {k: bc(v, n)[i] for k, v in P.items()}, x[i])
+        qs.append(frac(float(q)))
+    if fam == "Normal":     # the standardised points are computed by the model over Q (numpy broadcasting of mean and std)
+        zs = [(frac(x[i]) - frac(bc(P["mean"], n)[i])) / frac(bc(P["std"], n)[i]) for i in range(n)]
+        pre.append("(ql_eqb (normal_zq %s %s %s) %s = true)" % (cql(P["mean"]), cql(P["std"]), cql(x), cql(zs)))
+    eps = Fraction(1, 10 ** 9)      # absolute: far in a tail (|z| > 6) the factor is only bounded absolutely
+    parts = pre + ["(Rabs (%s - %s) <= %s)%%R" % (f, cr(q), cr(eps)) for f, q in zip(fs, qs)]
+    prod = Fraction(1)
+    for q in qs:
+        prod *= q
+    v = frac(obs)
+    parts.append("(Rabs (%s - %s) <= %s)%%R" % (cr(prod), cr(v), cr(Fraction(1, 10 ** 8) * abs(v) + n * eps)))
+    return " /\\ ".join(parts)
+
+
 def model_expr(fam, P, x, n, state, method="logpdf"):
     """Coq R-expression of the model value"""
     L = lambda k: crl(P[k])
@@ -401,7 +443,7 @@ def scalar_family_cases(ctx, cuqi, state, cases, stats):
                         methods = ["logpdf"]            # quick: pdf / logd only in the (dim 1, dim 3) x direct cells
                     if fam == "Normal":
                         methods = methods + ["pdf_own"] if via != "logd" else methods
-                    if fam == "Cauchy" and via == "direct":
+                    if fam in ("Cauchy", "Normal", "Gamma", "Beta", "InverseGamma") and via == "direct":
                         methods = methods + ["cdf"]
                     for rep in range(reps):
                         for general in ([False, True] if fam in SHAPE_PARAMS and via == "direct" else [False]):
@@ -452,6 +494,26 @@ def scalar_magnitude_cases(ctx, cuqi, state, cases, stats):
                                 cell_suffix="/lengths*2^%d" % k)
 
 
+def scalar_cdf_cases(ctx, cuqi, state, cases, stats):
+    """cdf of Gamma / InverseGamma / Beta with INTEGER shapes: the Coq model states the cdf as the integral of the documented
+    density (enclosed by Interval's `integral`), every parameter form, dims 1..3"""
+    rng = ctx.rng
+    counter = 0
+    for fam in ("Gamma", "InverseGamma", "Beta"):
+        names = FAMILIES[fam][0]
+        for n in (1, 2, 3):
+            for forms in (["S" * len(names)] if n == 1 else ["S" * len(names), "V" * len(names)] + (["SV" + "S" * (len(names) - 2), "VS" + "V" * (len(names) - 2)] if ctx.thorough else [])):
+                for rep in range(ctx.n(1, 3)):
+                    counter += 1
+                    P = draw_params(rng, fam, forms, n)
+                    for nm in SHAPE_PARAMS[fam]:
+                        P[nm] = [float(rng.randint(1, 4)) for _ in P[nm]]
+                    x = draw_x(rng, fam, P, n, True)
+                    ifaces = [IFACES[(counter + j) % len(IFACES)] for j in range(len(names))]
+                    dist, condvals = build_dist(cuqi, fam, P, n, ifaces, "direct")
+                    one_scalar_case(ctx, cuqi, state, cases, stats, fam, P, x, n, forms, "direct", ifaces, "cdf", dist, condvals, cell_suffix="/int-shape")
+
+
 def scalar_oracle(fam, P, x, n, method, obs, forms):
     """the property itself on the implementation: observed value vs the logarithm of the documented density"""
     doc = doc_logpdf(fam, P, x)
@@ -479,6 +541,8 @@ def scalar_observe(cuqi, meta):
 
 
 def one_scalar_case(ctx, cuqi, state, cases, stats, fam, P, x, n, forms, via, ifaces, method, dist, condvals, general=False, cell_suffix=""):
+    if method == "cdf" and fam == "Normal":      # Interval's `integral` wants a non-degenerate interval [0, z]
+        x = [xi + 0.125 if xi == mi else xi for xi, mi in zip(x, bc(P["mean"], n))]
     obs = evaluate(dist, method, x, condvals)
     obs = float(np.asarray(obs).ravel()[0]) if np.size(obs) == 1 else None
     meta = {"kind": "scalar", "family": fam, "params": P, "x": x, "dim": n, "forms": "".join(forms), "via": via,
@@ -489,6 +553,15 @@ def one_scalar_case(ctx, cuqi, state, cases, stats, fam, P, x, n, forms, via, if
     fail, sig, expected = scalar_oracle(fam, P, x, n, method, obs, "".join(forms))
     # ---- model comparison
     inside = doc > -math.inf
+    if method == "cdf" and fam in SHAPE_PARAMS and not cell_suffix.startswith("/int-shape"):
+        # non-integer shapes: the cdf is tied by the oracle only (quadrature of the documented density); no Coq-side value
+        cases.append(Case(expr="true", kind="DECISION", meta=meta, cell=cell + "/oracle-only", impl_fail=fail, signature=sig, trivial=True))
+        stats["scalar"] = stats.get("scalar", 0) + 1
+        return
+    if method == "cdf" and fam != "Cauchy" and obs is not None and math.isfinite(obs):
+        cases.append(Case(expr=cdf_goal(fam, P, x, n, obs), tac="c04_int.", kind="ENCLOSURE", meta=meta, cell=cell, impl_fail=fail, signature=sig))
+        stats["scalar"] = stats.get("scalar", 0) + 1
+        return
     if method == "cdf" or (inside and obs is not None and math.isfinite(obs)):
         m = model_expr(fam, P, x, n, state, method)
         if method == "pdf":
@@ -590,6 +663,8 @@ def g_dense(meta):
         return [[P[0] if i == j else 0.0 for j in range(n)] for i in range(n)]
     if gk in ("vector", "spdiag"):
         return [[P[i] if i == j else 0.0 for j in range(n)] for i in range(n)]
+    if gk == "linop":
+        return P
     if gk == "spdiabands":
         import scipy.sparse as spa
         return spa.dia_matrix((np.array(meta["dia_data"], dtype=float), meta["dia_offsets"]), shape=(n, n)).toarray().tolist()
@@ -613,6 +688,12 @@ def g_param(meta):
         return spa.csr_matrix(np.array(P, dtype=float)) if st == "csr" else spa.csc_matrix(np.array(P, dtype=float))
     if gk == "spdiabands":
         return spa.dia_matrix((np.array(meta["dia_data"], dtype=float), meta["dia_offsets"]), shape=(n, n))
+    if gk == "linop":
+        import scipy.sparse.linalg as spl
+        op = spl.aslinearoperator(np.array(P, dtype=float))
+        if meta.get("linop_logdet") is not None:
+            op.logdet = np.float64(meta["linop_logdet"])     # (a plain Python float makes logpdf raise AttributeError: .flatten())
+        return op
     raise ValueError(gk)
 
 
@@ -623,6 +704,13 @@ def g_observe(cuqi, meta):
     mean = float(meta["mean"][0]) if len(meta["mean"]) == 1 else np.array(meta["mean"], dtype=float)
     val = g_param(meta)
     G = cuqi.distribution.Gaussian
+    if "thr" in meta and not meta.get("_thr_set"):
+        old_thr = cuqi.config.MIN_DIM_SPARSE
+        try:
+            cuqi.config.MIN_DIM_SPARSE = meta["thr"]
+            return g_observe(cuqi, dict(meta, _thr_set=True))
+        finally:
+            cuqi.config.MIN_DIM_SPARSE = old_thr
     with warnings.catch_warnings():
         warnings.simplefilter("ignore")
         with np.errstate(all="ignore"), contextlib.redirect_stdout(io.StringIO()):
@@ -845,6 +933,281 @@ def g_case(ctx, cuqi, state, cases, stats, meta, cell):
         return
     expr, tac = encl(m, v, cert="(%s)" % cert, rel=(method == "pdf"), tol=10 * TOL if method == "pdf" else TOL)
     cases.append(Case(expr=expr, tac=tac, kind="ENCLOSURE", meta=meta, cell=cell, impl_fail=fail, signature=sig))
+
+
+SIG_CDF_SCALAR_MEAN = "Gaussian.cdf|scalar-mean:dim>1:raises"
+SIG_CDF_SPARSE = "Gaussian.cdf|sparse-cov:raises"
+
+
+def mvn_cdf_ref(mu, S, x):
+    """independent reference for the 1-d / 2-d Gaussian cdf: Phi, and for 2-d the conditional decomposition
+    P = int_{-inf}^{x1} phi(t; mu1, s11) Phi((x2 - mu2 - s12/s11 (t - mu1)) / sqrt(s22 - s12^2/s11)) dt  (quadrature, math.erf)"""
+    from scipy.integrate import quad
+    Phi = lambda z: 0.5 * (1 + math.erf(z / math.sqrt(2)))
+    if len(x) == 1:
+        return Phi((x[0] - mu[0]) / math.sqrt(S[0][0]))
+    s11, s12, s22 = S[0][0], S[0][1], S[1][1]
+    sc = math.sqrt(s22 - s12 * s12 / s11)
+    f = lambda t: math.exp(-(t - mu[0]) ** 2 / (2 * s11)) / math.sqrt(2 * math.pi * s11) * Phi((x[1] - mu[1] - s12 / s11 * (t - mu[0])) / sc)
+    lo = mu[0] - 12 * math.sqrt(s11)
+    if x[0] <= lo:
+        return 0.0
+    return quad(f, lo, x[0], epsabs=1e-13, epsrel=1e-12, limit=400)[0]
+
+
+def to_dense_list(A):
+    import scipy.sparse as spa
+    if spa.issparse(A):
+        A = A.toarray()
+    return np.asarray(A, dtype=float).tolist()
+
+
+def gcov_observe(cuqi, meta):
+    """history on ONE object: logpdf, compute_cov, logpdf again, the cov attribute afterwards, compute_cov again, cdf"""
+    import io, contextlib
+    n, form = meta["dim"], meta["form"]
+    mean = float(meta["mean"][0]) if len(meta["mean"]) == 1 else np.array(meta["mean"], dtype=float)
+    out = {}
+    old_thr = cuqi.config.MIN_DIM_SPARSE
+    with warnings.catch_warnings(), np.errstate(all="ignore"), contextlib.redirect_stdout(io.StringIO()):
+        warnings.simplefilter("ignore")
+        try:
+            if "thr" in meta:
+                cuqi.config.MIN_DIM_SPARSE = meta["thr"]
+            d = cuqi.distribution.Gaussian(mean, **{form: g_param(meta)}, geometry=n)
+            x = np.array(meta["x"], dtype=float)
+            out["lp0"] = float(np.ravel(d.logpdf(x))[0])
+            C = d.compute_cov()
+            out["C"] = to_dense_list(C)
+            out["lp1"] = float(np.ravel(d.logpdf(x))[0])
+            out["cov_attr"] = to_dense_list(d.cov)
+            out["C2"] = to_dense_list(d.compute_cov())
+            if meta.get("cdf"):
+                try:
+                    out["cdf"] = float(d.cdf(x))
+                except Exception as e:
+                    out["cdf_err"] = repr(e)[:160]
+                out["lp2"] = float(np.ravel(d.logpdf(x))[0])
+        finally:
+            cuqi.config.MIN_DIM_SPARSE = old_thr
+    return out
+
+
+def gcov_case(ctx, cuqi, state, cases, stats, meta, cell):
+    ob = gcov_observe(cuqi, meta)
+    meta = dict(meta, observed=ob)
+    n, form, gk = meta["dim"], meta["form"], meta["gkind"]
+    F = GFORMS[form]
+    M = fr_mat(g_dense(meta))
+    # the covariance of the distribution the logpdf denotes (code's reading of sqrtcov: M M^T), exact
+    if form == "cov":
+        S = M
+    elif form == "prec":
+        S = fr_inv(M)
+    elif form == "sqrtcov":
+        S = fr_mm(M, fr_T(M))
+    else:
+        S = fr_inv(fr_mm(fr_T(M), M))
+    Sf = [[float(v) for v in r] for r in S]
+    smax = max(abs(v) for r in Sf for v in r)
+    fail, sig = None, ""
+    def mat_close(A):
+        A = np.asarray(A, dtype=float)
+        if A.shape == (n,) or A.shape == (1, 1) and n > 1:
+            return False
+        return A.shape == (n, n) and all(abs(A[i][j] - Sf[i][j]) <= 1e-9 * smax for i in range(n) for j in range(n))
+    if not mat_close(ob["C"]):
+        fail = "Gaussian(%s=<%s>).compute_cov() = %s but the density is that of covariance %s" % (form, gk, ob["C"] if n <= 3 else "...", Sf if n <= 3 else "...")
+        sig = "Gaussian.compute_cov|%s:%s" % (form, gk)
+    elif not mat_close(ob["C2"]) or (form != "cov" and not mat_close(ob["cov_attr"])):
+        fail = "Gaussian(%s=<%s>): .cov after compute_cov() / a second compute_cov() differ from the covariance of the density" % (form, gk)
+        sig = "Gaussian.compute_cov|%s:%s:state" % (form, gk)
+    elif not (ob["lp0"] == ob["lp1"] and ob.get("lp2", ob["lp0"]) == ob["lp0"]):
+        fail = "Gaussian(%s=<%s>).logpdf changes after compute_cov()/cdf(): %r, %r, %r" % (form, gk, ob["lp0"], ob["lp1"], ob.get("lp2"))
+        sig = "Gaussian.compute_cov|alters-logpdf"
+    elif meta.get("cdf"):
+        if "cdf" not in ob:
+            fail = "Gaussian(mean=%s, %s=<%s>, dim %d).cdf raises %s" % (meta["mean"], form, gk, n, ob.get("cdf_err"))
+            sig = SIG_CDF_SCALAR_MEAN if (len(meta["mean"]) == 1 and n > 1) else (SIG_CDF_SPARSE if (form == "cov" and gk == "spdiag") else "Gaussian.cdf|%s:%s:raises" % (form, gk))
+        else:
+            ref = mvn_cdf_ref(bc(meta["mean"], n), Sf, meta["x"])
+            if not abs(ob["cdf"] - ref) <= 2e-4 * max(ref, 1e-3) + 2e-6:
+                fail = "Gaussian(%s=<%s>).cdf(%s) = %r but the integral of its own density is %r" % (form, gk, meta["x"], ob["cdf"], ref)
+                sig = "Gaussian.cdf|%s:%s" % (form, gk)
+    stats["gaussian_cov"] = stats.get("gaussian_cov", 0) + 1
+    expr = "gauss_cov_cert %s %s %s %s && qmat_close (1 # 1000000000) %s %s && qmat_close (1 # 1000000000) %s %s" % (
+        F, cnat(n), cqm(g_dense(meta)), cqm(S), cqm(ob["C"]), cqm(S), cqm(ob["C2"]), cqm(S))
+    if not (np.asarray(ob["C"]).shape == (n, n) and np.asarray(ob["C2"]).shape == (n, n)):
+        expr = "false"
+    cases.append(Case(expr=expr, kind="EXACT", meta=meta, cell=cell, impl_fail=fail, signature=sig))
+    # 1-d cdf: also against the model's integral of the density
+    if meta.get("cdf") and n == 1 and "cdf" in ob:
+        P = {"mean": [meta["mean"][0]], "std": [math.sqrt(Sf[0][0])]}
+        if float(frac(P["std"][0]) ** 2) == Sf[0][0] and meta["x"][0] != meta["mean"][0]:
+            cases.append(Case(expr=cdf_goal("Normal", P, meta["x"], 1, ob["cdf"]), tac="c04_int.", kind="ENCLOSURE", meta=dict(meta, sub="cdf-1d"),
+                              cell=cell + "/cdf-1d", impl_fail=fail, signature=sig))
+
+
+def gaussian_cov_cdf_cases(ctx, cuqi, state, cases, stats):
+    """Gaussian.compute_cov and Gaussian.cdf: the covariance handed to scipy's multivariate normal cdf must be the one of the
+    density, for all 4 forms x shapes, both sides of the storage switch (threshold lowered through cuqi.config), magnitudes"""
+    rng = ctx.rng
+    pt = lambda n: [rng.randint(-16, 16) / 8 for _ in range(n)]
+    counter = 0
+    for n in (1, 2, 3):
+        for form in GFORMS:
+            for gk in (["scalar"] if n == 1 else ["scalar", "vector", "densediag", "densefull", "spdiag"]):
+                for thr in ([None] if n == 1 else [None, 1]):
+                    for j in ([0] if not (gk == "densefull" and thr is None) else [0, -17, 17]):
+                        counter += 1
+                        sd = [rng.choice([0.5, 1.0, 2.0, 4.0]) for _ in range(n)]
+                        meta = {"kind": "gcov", "form": form, "gkind": gk, "dim": n, "x": pt(n), "cdf": n <= 2,
+                                "mean": pt(n) if (counter % 3 or n == 1) else pt(1)}
+                        if thr:
+                            meta["thr"] = thr
+                        if gk == "densefull":
+                            U = rand_unit_lower(rng, n)
+                            U[n - 1][0] = rng.choice([-1, 1])
+                            D = [rng.choice([0.5, 1.0, 2.0]) for _ in range(n)]
+                            L = [[Fraction(U[i][k]) * frac(D[k]) for k in range(n)] for i in range(n)]
+                            Ui = inv_unit_lower(U)
+                            Li = [[Ui[i][k] / frac(D[i]) for k in range(n)] for i in range(n)]
+                            Mx = {"cov": fr_mm(L, fr_T(L)), "prec": fr_mm(fr_T(Li), Li), "sqrtcov": L, "sqrtprec": Li}[form]
+                            meta["P"] = [[float(v) for v in r] for r in Mx]
+                        else:
+                            s0 = sd[:1] if gk == "scalar" else sd
+                            pv = [{"cov": v * v, "prec": 1 / (v * v), "sqrtcov": v, "sqrtprec": 1 / v}[form] for v in s0]
+                            meta["P"] = [[pv[i] if i == k else 0.0 for k in range(n)] for i in range(n)] if gk == "densediag" else pv
+                            meta["storage"] = {"scalar": "float", "vector": "array", "spdiag": ["dia", "csr"][counter % 2], "densediag": "array"}[gk]
+                        if j:
+                            gscale(meta, j)
+                        gcov_case(ctx, cuqi, state, cases, stats, meta, "Gaussian.compute_cov+cdf/%s/%s/%s%s%s%s" % (
+                            form, gk, "1" if n == 1 else "n", "/thr=1" if thr else "", "/mag2^%d" % j if j else "", "/scalar-mean" if len(meta["mean"]) == 1 and n > 1 else ""))
+
+
+def gaussian_switch_cases(ctx, cuqi, state, cases, stats):
+    """(a) every storage kind on the SPARSE side of the switch at small dims (threshold lowered through cuqi.config.MIN_DIM_SPARSE),
+    (b) rank-deficient full matrices on both sides, (c) sqrtprec as a scipy LinearOperator"""
+    rng = ctx.rng
+    pt = lambda n: [rng.randint(-16, 16) / 8 for _ in range(n)]
+    counter = 0
+    # (a) same generators as the dense side, threshold 1: identical values expected (the model does not know the branch)
+    for n in (2, 3) + ((5,) if ctx.thorough else ()):
+        for form in GFORMS:
+            for gk in ("scalar", "vector", "densediag", "densefull", "spdiag"):
+                counter += 1
+                sd = [rng.choice([0.5, 1.0, 2.0, 4.0]) for _ in range(n)]
+                meta = {"kind": "gaussian", "form": form, "gkind": gk, "dim": n, "mean": pt(n) if counter % 2 else pt(1), "via": "direct",
+                        "method": ["logpdf", "logd", "logupdf"][counter % 3], "x": pt(n), "thr": 1}
+                if gk == "densefull":
+                    U = rand_unit_lower(rng, n)
+                    U[n - 1][0] = rng.choice([-1, 1])
+                    D = [rng.choice([0.5, 1.0, 2.0]) for _ in range(n)]
+                    L = [[Fraction(U[i][k]) * frac(D[k]) for k in range(n)] for i in range(n)]
+                    Ui = inv_unit_lower(U)
+                    Li = [[Ui[i][k] / frac(D[i]) for k in range(n)] for i in range(n)]
+                    Mx = {"cov": fr_mm(L, fr_T(L)), "prec": fr_mm(fr_T(Li), Li), "sqrtcov": fr_mm(L, fr_T(L)), "sqrtprec": Li}[form]
+                    meta["P"] = [[float(v) for v in r] for r in Mx]
+                else:
+                    s0 = sd[:1] if gk == "scalar" else sd
+                    pv = [{"cov": v * v, "prec": 1 / (v * v), "sqrtcov": v, "sqrtprec": 1 / v}[form] for v in s0]
+                    meta["P"] = [[pv[i] if i == k else 0.0 for k in range(n)] for i in range(n)] if gk == "densediag" else pv
+                    meta["storage"] = {"scalar": "float", "vector": "array", "spdiag": ["dia", "csr"][counter % 2], "densediag": "array"}[gk]
+                g_case(ctx, cuqi, state, cases, stats, meta, "Gaussian/%s/%s/n/thr=1/%s" % (form, gk, meta["method"]))
+    # (b) rank-deficient: Sigma = B B^T, B n x r with integer entries and full column rank
+    for n, r in ((3, 2), (4, 2)) + (((5, 3),) if ctx.thorough else ()):
+        while True:
+            B = [[Fraction(rng.randint(-2, 2)) for _ in range(r)] for _ in range(n)]
+            BtB = fr_mm(fr_T(B), B)
+            if fr_solve_det(BtB, [Fraction(0)] * r)[1] != 0:
+                break
+        G = fr_inv(BtB)
+        pdet = fr_solve_det(BtB, [Fraction(0)] * r)[1]
+        Sg = fr_mm(B, fr_T(B))
+        Bpad = [row + [Fraction(0)] * (n - r) for row in B]                 # n x n square root: Bpad Bpad^T = Sigma
+        for form in GFORMS:
+            for thr in (1, None):
+                t = [Fraction(rng.randint(-8, 8), 4) for _ in range(r)]
+                mean = pt(n)
+                d = fr_mv(B, t) if form in ("cov", "sqrtcov") else [Fraction(rng.randint(-8, 8), 4) for _ in range(n)]
+                x = [float(frac(m) + di) for m, di in zip(mean, d)]
+                Mx = {"cov": Sg, "prec": Sg, "sqrtcov": Bpad, "sqrtprec": fr_T(Bpad)}[form]
+                meta = {"kind": "gaussian", "form": form, "gkind": "densefull", "dim": n, "mean": mean, "via": "direct", "method": "logpdf", "x": x,
+                        "P": [[float(v) for v in row] for row in Mx], "singular": r}
+                if thr:
+                    meta["thr"] = thr
+                ob = g_observe(cuqi, meta)
+                meta = dict(meta, observed=ob)
+                sparse_side = thr is not None
+                cell = "Gaussian/%s/densefull-rank-deficient/%s" % (form, "thr=1" if thr else "dense-side")
+                obs_out = {"refused_init": "OutRefusedInit", "refused_logpdf": "OutRefusedLogpdf", "value": "OutValue"}[ob["outcome"]]
+                dec = "gout_eqb (gauss_singular_outcome %s %s) %s" % (cbool(sparse_side), GFORMS[form], obs_out)
+                stats["gaussian"] = stats.get("gaussian", 0) + 1
+                if ob["outcome"] != "value" or not sparse_side:
+                    ninf = ob["outcome"] == "value" and ob["value"] == -math.inf
+                    cases.append(Case(expr=dec + (" && %s" % cbool(ninf) if ob["outcome"] == "value" else ""), kind="DECISION", meta=meta, cell=cell))
+                    continue
+                # independent oracle: the degenerate Gaussian on its support (cov forms) / the improper precision (prec forms), numpy eigh
+                A = np.array([[float(v) for v in row] for row in Sg])
+                ev, V = np.linalg.eigh(A)
+                keep = ev > 1e-9 * ev.max()
+                dv = np.array([float(v) for v in d])
+                if form in ("cov", "sqrtcov"):
+                    qd = float(sum((V[:, i] @ dv) ** 2 / ev[i] for i in range(n) if keep[i]))
+                    exp = -0.5 * (keep.sum() * LOG2PI + float(np.sum(np.log(ev[keep])))) - 0.5 * qd
+                else:
+                    exp = -0.5 * (keep.sum() * LOG2PI - float(np.sum(np.log(ev[keep])))) - 0.5 * float(dv @ A @ dv)
+                fail, sig = None, ""
+                if ob["value"] is None or math.isnan(ob["value"]):
+                    # numpy.sqrt of a numerically negative zero eigenvalue (prec forms): sqrtprec contains nan
+                    cases.append(Case(expr="true", kind="DECISION", meta=meta, cell=cell, trivial=True,
+                                      impl_fail="Gaussian(%s=<rank %d of %d, %s>) on the sparse side: logpdf = nan, degenerate density %r" % (form, r, n, meta["P"], exp),
+                                      signature="Gaussian.prec|rank-deficient:sparse-side:sqrt-of-negative-rounding-error"))
+                    continue
+                if not close(ob["value"], exp, 1e-8) or ob["rank"] != r:
+                    fail = "Gaussian(%s=<rank %d of %d>) on the sparse side: logpdf %r rank %r, degenerate density %r" % (form, r, n, ob["value"], ob["rank"], exp)
+                    sig = "Gaussian.%s|rank-deficient:sparse-side" % form
+                if form in ("cov", "sqrtcov"):
+                    z = fr_mv(G, fr_mv(fr_T(B), d))
+                    quad = fr_dot(z, z)
+                    cert = "%s && gauss_psd_cert %s %s %s %s %s %s %s %s %s" % (dec, cnat(n), cnat(r), cqm(Sg), cqm(B), cqm(G), cql(d), cq(pdet), cq(quad), cnat(ob["rank"]))
+                    m = "(gauss_canon %s (ln %s) %s)" % (cnat(r), cr(pdet), cr(quad))
+                else:
+                    z = fr_mv(fr_T(B), d)
+                    quad = fr_dot(z, z)
+                    cert = "%s && gauss_psd_prec_cert %s %s %s %s %s %s %s %s" % (dec, cnat(n), cnat(r), cqm(Sg), cqm(B), cql(d), cq(pdet), cq(quad), cnat(ob["rank"]))
+                    m = "(gauss_canon %s (ln %s) %s)" % (cnat(r), cr(1 / pdet), cr(quad))
+                expr, tac = encl(m, ob["value"], cert="(%s)" % cert)
+                cases.append(Case(expr=expr, tac=tac, kind="ENCLOSURE", meta=meta, cell=cell, impl_fail=fail, signature=sig))
+    # (c) sqrtprec given as a LinearOperator: rank = dim, logdet = its `logdet` attribute (None -> logpdf refused)
+    for n in (2, 3):
+        for has in (True, False):
+            U = rand_unit_lower(rng, n)
+            D = [rng.choice([0.5, 1.0, 2.0]) for _ in range(n)]
+            R = [[float(Fraction(U[i][k]) * frac(D[i])) for k in range(n)] for i in range(n)]
+            ld = -2 * sum(math.log(v) for v in D)          # - ln det(R^T R)
+            meta = {"kind": "gaussian", "form": "sqrtprec", "gkind": "linop", "dim": n, "mean": pt(n), "via": "direct", "method": "logpdf", "x": pt(n),
+                    "P": R, "linop_logdet": ld if has else None}
+            ob = g_observe(cuqi, meta)
+            meta = dict(meta, observed=ob)
+            cell = "Gaussian/sqrtprec/LinearOperator/%s" % ("with-logdet" if has else "no-logdet")
+            stats["gaussian"] = stats.get("gaussian", 0) + 1
+            if not has:
+                cases.append(Case(expr=cbool(ob["outcome"] == "refused_logpdf"), kind="DECISION", meta=meta, cell=cell,
+                                  impl_fail=None if ob["outcome"] != "value" else "LinearOperator without logdet gives a normalised value %r" % ob.get("value"),
+                                  signature="Gaussian.sqrtprec|LinearOperator:no-logdet"))
+                continue
+            d = [frac(a) - frac(b) for a, b in zip(meta["x"], meta["mean"])]
+            z = fr_mv(fr_mat(R), d)
+            quad = fr_dot(z, z)
+            exp = g_documented(dict(meta, gkind="densefull"))["logpdf"]
+            fail = None if (ob["outcome"] == "value" and close(ob["value"], exp)) else "Gaussian(sqrtprec=LinearOperator(R), logdet attribute = -ln det R^T R): %r, documented %r" % (ob, exp)
+            if ob["outcome"] != "value":
+                cases.append(Case(expr="false", kind="DECISION", meta=meta, cell=cell, impl_fail=fail, signature="Gaussian.sqrtprec|LinearOperator"))
+                continue
+            cert = "Nat.eqb %s %s && Qeq_bool (let z := qmv %s %s in qdotq z z) %s" % (cnat(ob["rank"]), cnat(n), cqm(R), cql(d), cq(quad))
+            expr, tac = encl("(gauss_canon %s %s %s)" % (cnat(n), cr(ld), cr(quad)), ob["value"], cert="(%s)" % cert)
+            cases.append(Case(expr=expr, tac=tac, kind="ENCLOSURE", meta=meta, cell=cell, impl_fail=fail, signature="Gaussian.sqrtprec|LinearOperator" if fail else ""))
 
 
 def rand_unit_lower(rng, n, lo=-1, hi=1):
@@ -1103,6 +1466,22 @@ SIG_GMRF0 = "GMRF.logpdf|order0-periodic/neumann:rank-dim-1"
 SIG_GMRF2N = "GMRF.logpdf|order2-neumann:rank-and-logdet"
 
 
+def fr_pdet(A, k):
+    """product of the non-zero eigenvalues of a symmetric PSD rational matrix with a k-dimensional null space:
+    (-1)^(n-k) c_k of the characteristic polynomial (Faddeev-LeVerrier)"""
+    n = len(A)
+    I = [[Fraction(int(i == j)) for j in range(n)] for i in range(n)]
+    M = [[Fraction(0)] * n for _ in range(n)]
+    c = [Fraction(0)] * (n + 1)
+    c[n] = Fraction(1)
+    for j in range(1, n + 1):
+        AM = fr_mm(A, M)
+        M = [[AM[r][q] + c[n - j + 1] * I[r][q] for q in range(n)] for r in range(n)]
+        AMk = fr_mm(A, M)
+        c[n - j] = -sum(AMk[r][r] for r in range(n)) / j
+    return c[k] if (n - k) % 2 == 0 else -c[k]
+
+
 def mrf_build(cuqi, meta):
     import io, contextlib
     fam, N, twod = meta["family"], meta["N"], meta["twod"]
@@ -1177,14 +1556,19 @@ def mrf_case(ctx, cuqi, state, cases, stats, meta, cell):
     dd = fr_mv(Df, sh)
     B = BCS[bcn]
     if fam == "GMRF":
-        if order == 2 and bcn == "neumann":
-            expr = "match gmrf_detarg 2 BNeumann [] with None => true | Some _ => false end"     # the model assigns no value: logdet of a zero eigenvalue
+        rk_fixed = state["gmrf_rank_fixed"]
+        if order == 2 and bcn == "neumann" and not rk_fixed:
+            expr = "match gmrf_detarg_v false 2 BNeumann %s [] with None => true | Some _ => false end" % cbool(twod)     # the model assigns no value: logdet of a zero eigenvalue
             cases.append(Case(expr=expr, kind="DECISION", meta=meta, cell=cell, impl_fail=fail, signature=sig))
             return
-        # the number whose log the code takes: det P (zero b.c.), product of the dim-1 largest eigenvalues otherwise
+        # the number whose log the code takes.  Unrepaired: det P (zero b.c.), product of the dim-1 largest eigenvalues otherwise.
+        # After fixes/C20_gmrf_rank_rule.diff: the pseudo-determinant for the true nullity (characteristic polynomial coefficient).
         P = fr_mm(fr_T(Df), Df)
+        nullity = 0 if (bcn == "zero" or order == 0) else ((4 if twod else 2) if (order == 2 and bcn == "neumann") else 1)
         if bcn == "zero":
             _, detarg = fr_solve_det(P, [Fraction(0)] * dim)
+        elif rk_fixed:
+            detarg = fr_pdet(P, nullity)
         elif order == 0:
             detarg = P[0][0] ** (dim - 1)
         else:
@@ -1192,7 +1576,7 @@ def mrf_case(ctx, cuqi, state, cases, stats, meta, cell):
             for i in range(dim):
                 Mi = [[P[r][c] for c in range(dim) if c != i] for r in range(dim) if r != i]
                 detarg += fr_solve_det(Mi, [Fraction(0)] * (dim - 1))[1]
-        cert = "gmrf_cert %s %s %s %s %s %s %s %s %s" % (cnat(order), B, cbool(twod), cnat(N), cql(meta["loc"]), cql(meta["x"]), cql(dd), cnat(ob["rank"]), cq(detarg))
+        cert = "gmrf_cert_v %s %s %s %s %s %s %s %s %s %s" % (cbool(rk_fixed), cnat(order), B, cbool(twod), cnat(N), cql(meta["loc"]), cql(meta["x"]), cql(dd), cnat(ob["rank"]), cq(detarg))
         m = "(gmrf_logpdf %s %s %s %s)" % (cnat(ob["rank"]), cr(meta["par"]), cr(detarg), crl(dd))
     else:
         cert = "mrf_cert 1%%nat %s %s %s %s %s %s" % (B, cbool(twod), cnat(N), cql(meta["loc"]), cql(meta["x"]), cql(dd))
@@ -1288,8 +1672,21 @@ def witness_values(cuqi):
             w["symtol"] = "accepted"
         except ValueError:
             w["symtol"] = "refused"
+        for key, mk in (("cdf_scalar_mean", lambda: D.Gaussian(0.0, 1.0, geometry=2)), ("cdf_sparse_cov", lambda: D.Gaussian(np.zeros(2), cov=spa.diags([1.0, 1.0])))):
+            try:
+                w[key] = float(mk().cdf(np.zeros(2)))           # documented: 1/4
+            except Exception as e:
+                w[key] = "raises " + repr(e)[:80]
+        old_thr = cuqi.config.MIN_DIM_SPARSE
+        try:
+            cuqi.config.MIN_DIM_SPARSE = 1
+            Pw = np.array([[1.0, 2, -2, 1], [2, 4, -4, 2], [-2, -4, 4, -2], [1, 2, -2, 5]])
+            w["psd_prec"] = float(np.ravel(D.Gaussian(np.zeros(4), prec=Pw).logpdf(np.array([1.0, 0, 0, 0])))[0])
+        finally:
+            cuqi.config.MIN_DIM_SPARSE = old_thr
         g0 = D.GMRF(np.zeros(5), 2.0, "periodic", 0)
-        w["gmrf0"] = float(g0.logpdf(np.zeros(5)))                                         # documented: 2.5 (log 2 - log 2 pi)
+        w["gmrf0"] = float(g0.logpdf(np.zeros(5)))
+        w["gmrf0_rank"] = int(g0._rank)                                         # documented: 2.5 (log 2 - log 2 pi)
         g2 = D.GMRF(np.zeros(5), 2.0, "neumann", 2)
         w["gmrf2n"] = float(g2.logpdf(np.zeros(5)))                                        # documented: rank 3, pdet(2 D^T D)
         w["gmrf2n_rank"] = int(g2._rank)
@@ -1305,6 +1702,7 @@ def detect_state(cuqi):
             "dia_fixed": w["dia"] == "refused",
             "logdet_fixed": math.isfinite(w["logdet"]),
             "thr": int(cuqi.config.MIN_DIM_SPARSE),
+            "gmrf_rank_fixed": w["gmrf0_rank"] == 5,       # fixes/C20_gmrf_rank_rule.diff applied?
             "witness": w}
 
 
@@ -1329,6 +1727,12 @@ def known_witnesses(ctx):
         "Gaussian(zeros(40), cov=2^-40 * tridiag(-.5,3,-.5)).logpdf(0) = %r, documented %r (numpy.linalg.det underflows, log gives -inf)" % (w["logdet"], w["logdet_doc"]))
     out[SIG_SYMTOL] = (w["symtol"] == "accepted",
         "Gaussian(zeros(2), cov=2^-30*[[4,1],[2,3]]) is %s; the same matrix at scale 1 is refused as non-symmetric" % w["symtol"])
+    out[SIG_CDF_SCALAR_MEAN] = (not (isinstance(w["cdf_scalar_mean"], float) and abs(w["cdf_scalar_mean"] - 0.25) < 1e-4),
+        "Gaussian(0, 1, geometry=2).cdf([0,0]) : %s (documented 1/4)" % (w["cdf_scalar_mean"],))
+    out[SIG_CDF_SPARSE] = (not (isinstance(w["cdf_sparse_cov"], float) and abs(w["cdf_sparse_cov"] - 0.25) < 1e-4),
+        "Gaussian(zeros(2), cov=scipy.sparse.diags([1,1])).cdf([0,0]) : %s (documented 1/4)" % (w["cdf_sparse_cov"],))
+    out["Gaussian.prec|rank-deficient:sparse-side:sqrt-of-negative-rounding-error"] = (math.isnan(w["psd_prec"]),
+        "MIN_DIM_SPARSE=1; Gaussian(zeros(4), prec=<rank 2>).logpdf([1,0,0,0]) = %r (nan when the zero eigenvalues are computed as negative numbers)" % w["psd_prec"])
     out[SIG_GMRF0] = (not close(w["gmrf0"], 2.5 * (math.log(2) - LOG2PI)),
         "GMRF(zeros(5),2,'periodic',order=0).logpdf(0) = %r, documented N(0, I/2): %r" % (w["gmrf0"], 2.5 * (math.log(2) - LOG2PI)))
     # order 2 neumann, n = 5: D^T D has eigenvalues with product (non-zero ones) = pdet; true rank 3
@@ -1346,14 +1750,17 @@ def run(ctx):
     import cuqi
     state = detect_state(cuqi)
     ctx.note("state of repairable defects: uniform_fixed=%s slap_fixed=%s cauchy_cdf_fixed=%s dia_fixed=%s logdet_fixed=%s" % (
-        state["uniform_fixed"], state["slap_fixed"], state["cauchy_cdf_fixed"], state["dia_fixed"], state["logdet_fixed"]))
+        state["uniform_fixed"], state["slap_fixed"], state["cauchy_cdf_fixed"], state["dia_fixed"], state["logdet_fixed"]) + " gmrf_rank_fixed=%s" % state["gmrf_rank_fixed"])
     cases, stats = [], {}
     scalar_family_cases(ctx, cuqi, state, cases, stats)
     gaussian_cases(ctx, cuqi, state, cases, stats)
     gaussian_magnitude_cases(ctx, cuqi, state, cases, stats)
+    gaussian_cov_cdf_cases(ctx, cuqi, state, cases, stats)
+    gaussian_switch_cases(ctx, cuqi, state, cases, stats)
     mrf_cases(ctx, cuqi, state, cases, stats)
     mrf_magnitude_cases(ctx, cuqi, state, cases, stats)
     scalar_magnitude_cases(ctx, cuqi, state, cases, stats)
+    scalar_cdf_cases(ctx, cuqi, state, cases, stats)
     # spread the expensive cases (76 x 76 exact determinants) over the shards so that they are evaluated in parallel
     heavy = [c for c in cases if "/densefull/dim" in c.cell]
     light = [c for c in cases if "/densefull/dim" not in c.cell]
@@ -1382,6 +1789,11 @@ def recheck(cuqi, meta):
         if ob["outcome"] == "value" and not meta.get("malformed"):
             ob["documented"] = g_documented(meta)[meta["method"]]
         return ob, fail, sig
+    if k == "gcov":
+        ob = gcov_observe(cuqi, meta)
+        tmp, st = [], {}
+        gcov_case(None, cuqi, {}, tmp, st, {kk: vv for kk, vv in meta.items() if kk != "observed"}, "replay")
+        return ob, tmp[0].impl_fail, tmp[0].signature
     if k == "mrf":
         ob = mrf_observe(cuqi, meta)
         D = ob.pop("D")
